@@ -113,6 +113,7 @@ def execute_factory(cfg):
         mm = MemoryMap(addr_width=AW, data_width=DW, alignment=AL)
         ref = RefAlloc(AW, AL)
         first_res = first_win = first_name = None
+        failed_name = failed_obj = None
         children = []
         err = None
         last_raised = False
@@ -271,23 +272,45 @@ def execute_factory(cfg):
                     ref.items.append((applied[0], applied[1], applied[2], "w"))
                 ref.cur = applied[1]
             last_raised = raised is not None
+            failed_name = failed_obj = None
+            if raised is not None and kind in ("res", "win"):
+                failed_name = (f"p{pos}",)
+                failed_obj = res if kind == "res" else None
         # ---- canonical observation (public queries only; destructive probes are fine here) ----------
         rs, ws = observe(mm)
         cursor = mm.align_to(0)
-        open_ = False
-        for a in range(0, 1 << AW, 1 << AL):
+        # States are merged on the observation, so a refused call that leaves HIDDEN traces (a reserved
+        # name, a registered object) would go unnoticed by the search itself: look one step ahead.
+        retried = False
+        if err is None and last_raised and failed_name is not None:
+            exp = ("rej",) if ref.frozen else ref.place(None, au(1, AL), AL)
+            if exp[0] == "ok":
+                try:
+                    got = mm.add_resource(failed_obj if failed_obj is not None else make_res(), name=failed_name, size=1)
+                    retried = True
+                    if tuple(got) != (exp[1], exp[2]):
+                        err = dict(msg=f"after the refused call {history[-1]}, a retry with its name/object was placed at {got}, expected {exp[1:]}",
+                                   signature=dict(kind="oracle", what="refusal_left_traces"))
+                except Exception as e:
+                    err = dict(msg=f"after the refused call {history[-1]}, a legal retry with its name/object is refused: {type(e).__name__}: {str(e)[:100]}",
+                               signature=dict(kind="oracle", what="refusal_left_traces"))
+        open_ = retried       # a successful retry has just shown that the map still accepts a resource
+        for a in (() if retried else range(0, 1 << AW, 1 << AL)):
             try:
                 mm.add_resource(make_res(), name=(f"probe{a}",), size=1, addr=a)
                 open_ = True
                 break
-            except ValueError:
+            except (ValueError, TypeError):
                 pass
+            except Exception as e:        # a legitimate API call must not fail with an internal error
+                err = err or dict(msg=f"add_resource(size=1, addr={a}) after {history[-1:]}: {type(e).__name__}: {e}",
+                                  signature=dict(kind="oracle", what="internal_error"))
         child_open = []
         for w in children:
             try:
                 w.add_resource(make_res(), name=("probe",), size=1)
                 child_open.append(True)
-            except ValueError:
+            except Exception:
                 child_open.append(False)
         canon = (tuple(rs), tuple(ws), cursor, open_)
         if err is None:
